@@ -21,9 +21,18 @@ def plan(tier):
         pl.units.append(U("S3.%s" % m, "contracts.client", "h_status", (m,), setup=("contracts.client", "setup_typestate"),
                           replay=("contracts.client_replay", "replay_typestate")))
     pl.units.append(U("S1.read_line", "contracts.reader", "h_read_line", (), setup=("contracts.reader", "setup_read_line")))
+    for code in ("none", "atom", "slashed"):
+        pl.units.append(U("S2.parse_error.code-%s" % code, "contracts.replies", "h_parse_error", (code,), native_ok=True, sample_models=True))
+
+    from contracts import replies
+    for st in replies.STATUSES:
+        for code in replies.CODES:
+            for text in replies.TEXTS:
+                pl.units.append(U("D.reply.%s.%s.%s" % (st, code, text), "contracts.replies", "h_status_reply", (st, code, text),
+                                  setup=("contracts.reader", "setup_summaries"), native_ok=True, sample_models=True))
 
     def lf(u, label):
-        return label.startswith("S3.") or label in ("R2.response-code", "R2.classified-text-is-the-first-line")
+        return label.startswith(("S3.", "S2.", "S1.", "S4.", "R1.")) or label in ("R2.response-code", "R2.classified-text-is-the-first-line")
 
     pl.label_filter = lf
     pl.bounded = [bounded]
@@ -32,10 +41,19 @@ def plan(tier):
     pl.trusted = [common.TRUSTED_SERVER, common.TRUSTED_RE, "contract of Client.__send_command: returns the status atom of the "
                   "one reply it read as 'OK' or 'NO', raises Error for BYE/silence (its reader is verified under C05)",
                   "a GETSCRIPT/LISTSCRIPTS payload is UTF-8 (conforming server)"]
-    pl.unverified = ["errcode/errmsg decoding for all texts: decided only on the bounded reply pool (the solvers leave the "
-                     "strip/regex-group goals of __parse_error undecided: z3 5.1 and cvc5 1.0 both `unknown` within 20 s)"]
+    pl.unverified = ["reply shapes outside the 60 listed ones (e.g. several response-code parameters, text with more than one "
+                     "escape): covered only as far as the bounded reply pool samples them"]
     pl.explanation = (
-        "Deductive: S3 -- every script operation, run authenticated against the contract of __send_command, returns "
+        "Deductive: D -- the REAL __read_response / __read_line / __read_block / __parse_error (reader loops replaced by their "
+        "summaries proved under C05) run on 60 reply shapes {OK, NO, BYE} x {no code, atom, atom/sub, atom with a quoted "
+        "parameter} x {no text, quoted, empty quoted, quoted with an escaped quote, literal} with SYMBOLIC atoms and texts and "
+        "arbitrary later bytes behind the reply: the status is recognised, errcode / errmsg are exactly the code and text sent, "
+        "BYE raises Error, and the reader stops exactly at the end of the reply -- for every text of the shape (line splitting, "
+        "regex groups and literal counts are computed on the structure of the shaped stream, pyvc/shape.py; the shapes that "
+        "fail are the listed known findings, each replayed natively). S2 -- __parse_error on `[(CODE) ] \"text\"` for every response-code atom (none / atom / atom with slash) and "
+        "every non-empty text without quote, backslash, CR, LF sets errcode and errmsg to the code and the text as sent, "
+        "replacing stale values (the regex groups are computed on the STRUCTURE of the shaped text, pyvc/shape.py; cvc5 "
+        "closes the strip lemma). S3 -- every script operation, run authenticated against the contract of __send_command, returns "
         "True/data iff the reply was OK, False/None iff NO, and lets Error through for BYE or silence, sending exactly one "
         "command of its verb (all paths). S1 -- the line classified by __read_line is the first line of the stream and a "
         "Response carries OK or NO only. Bounded (labelled bounded, exhaustive over the pool): 8 operations x 3 statuses x "
